@@ -497,24 +497,28 @@ def oracle_c11(run, ops, impl):
     out = []
     st = {"pv": {}, "v": {}, "f": {}}
     bonded, wl, vp = {}, [], 1
+    deleg = {}   # the oracle's own record of who each validator currently delegates to (from the accepted messages)
     for i, (op, ob) in enumerate(zip(ops, impl)):
         a = op.split()
         if a[1] == "reset":
             vp, wl = int(a[2]), plist(a[3])
             bonded = {x.split("/")[0]: x.split("/")[1] == "1" for x in plist(a[4])}
             st = {"pv": {}, "v": {}, "f": {}}
+            deleg = {}
             continue
         if ob.startswith("panic"):
             out.append(V("C11:panic", {"line": i + 1, "op": op}))
             continue
         res, new = parse_votes_obs(ob)
+        if a[1] == "delegate" and res == "ok":
+            deleg[a[2]] = a[3]
         if a[1] == "setperiod":
             vp = int(a[2])
         elif a[1] == "setbonded":
             bonded[a[2]] = a[3] == "1"
         elif a[1] in ("prevote", "vote"):
             h, val, feeder = int(a[2]), a[3], a[4]
-            auth = (feeder == val or st["f"].get(val) == feeder) and bonded.get(val) is True
+            auth = (feeder == val or deleg.get(val, st["f"].get(val)) == feeder) and bonded.get(val) is True
             if a[1] == "prevote":
                 want = auth and a[5] == "1"
                 if (res == "ok") != want:
